@@ -51,13 +51,21 @@ def lowerOf (t : Table) (s : Bytes) : Bytes :=
     | some h => (unhex h).getD (asciiLower s)
     | none => asciiLower s
 
+/-- an oracle entry of a time mapper; an entry whose datatype is empty or a language-string datatype is not a value a
+    mapper can return (the harness reports such an entry as a broken hypothesis) and is dropped, so that the driver's
+    oracle satisfies `EnvOK` for EVERY table (Props/C11Ra: `driver_env_ok`) -/
+def timeEntry (h : String) : Option (Bytes × Bytes) :=
+  match h.splitOn "." with
+  | [l, d] =>
+    (match unhex l, unhex d with
+     | some x, some y => if y = [] ∨ y = rdfLangString ∨ y = rdfDirLangString then none else some (x, y)
+     | _, _ => none)
+  | _ => none
+
 def timeOf (t : Table) (k : Nat) (v : Bytes) : Option (Bytes × Bytes) :=
   match tget t k v [] with
   | some "!" => none
-  | some h =>
-    (match h.splitOn "." with
-     | [l, d] => (match unhex l, unhex d with | some x, some y => some (x, y) | _, _ => none)
-     | _ => none)
+  | some h => timeEntry h
   | none => none
 
 def envOf (t : Table) : Env :=
